@@ -38,7 +38,9 @@ pub fn vx_concat2(a: Vec<u8>, b: Vec<u8>) -> (r: Vec<u8>)
 /// A-std: <[T]>::to_vec clones element-wise (for u8: an equal sequence).
 pub assume_specification<T> [ <[T]>::to_vec ] (s: &[T]) -> (r: std::vec::Vec<T>)
     where T: std::clone::Clone,
-    ensures r@.len() == s@.len(), forall|i: int| 0 <= i < s@.len() ==> cloned::<T>(s@[i], #[trigger] r@[i]);
+    ensures r@.len() == s@.len(), forall|i: int| 0 <= i < s@.len() ==> cloned::<T>(s@[i], #[trigger] r@[i]),
+        // (tautology by extensionality; spelled out so that pointwise-equal results are known equal)
+        (forall|i: int| 0 <= i < s@.len() ==> r@[i] == s@[i]) ==> r@ == s@;
 
 /// A-std: clone of a byte is the byte.
 pub broadcast proof fn lemma_cloned_u8(a: u8, b: u8)
@@ -51,3 +53,7 @@ pub axiom fn axiom_vec_u8_len_bound(v: &Vec<u8>)
     ensures v@.len() <= isize::MAX;
 pub axiom fn axiom_slice_u8_len_bound(v: &[u8])
     ensures v@.len() <= isize::MAX;
+
+/// A-std: core::cmp::min on usize.
+pub assume_specification<T: Ord> [ core::cmp::min ] (a: T, b: T) -> (r: T)
+    ensures <T as OrdSpec>::obeys_cmp_spec() ==> (r == (if <T as OrdSpec>::cmp_spec(&b, &a) == Ordering::Less { b } else { a }));
